@@ -71,6 +71,11 @@ def to_it(M, x, by_ref=False, tystr=''):
     if isinstance(v, Slice):
         return from_refs(v.b, v.lo, v.hi)
     if isinstance(v, Agg):
+        if v.ty == 'RangeFrom':
+            st = {'cur': v.fields[0]}
+            def nxt():
+                x = st['cur']; st['cur'] = M.binop('Add', x, Int(x.w, x.s, 1)); return x
+            return mk(nxt)
         if v.ty in ('Range', 'RangeInclusive') or (v.ty == 'tuple' and False):
             return from_list(range_items(M, v.fields[0], v.fields[1], v.ty == 'RangeInclusive'))
         if v.ty == 'Option':
@@ -201,10 +206,20 @@ def _it(M, x):
     v = V(x) if isinstance(x, Ref) else x
     if isinstance(v, Native) and v.kind == 'It': return v.d['it']
     if isinstance(v, Native) and v.kind == 'CharIndices':
+        st = {'tail': None}
         def nxt():
+            if st['tail'] is not None: return st['tail'].pop(0) if st['tail'] else STOP
             r = ms.m_ci_next(M, [Ref([v], 0)], '')
             return STOP if r.variant == 0 else r.fields[0]
-        return It(nxt)
+        def bck():
+            if st['tail'] is None:
+                st['tail'] = []
+                while True:
+                    r = ms.m_ci_next(M, [Ref([v], 0)], '')
+                    if r.variant == 0: break
+                    st['tail'].append(r.fields[0])
+            return st['tail'].pop() if st['tail'] else STOP
+        return It(nxt, bck)
     return to_it(M, x).d['it']
 def drain(it):
     out = []
@@ -222,7 +237,7 @@ def crate_iter_next(M, ty):
         hits = [n for n, b in M.bodies.items() if n.endswith('::next') and re.search(r'\(_1: &mut (?:\w+::)*' + tn + r'(?:<[^)]*>)?\) -> Option<', b.header)]
         _CIN[tn] = hits[0] if len(hits) == 1 else None
     return _CIN[tn]
-ADAPT = ('map', 'filter', 'filter_map', 'enumerate', 'rev', 'zip', 'chain', 'skip', 'take', 'cloned', 'copied', 'step_by', 'take_while', 'skip_while', 'by_ref', 'peekable', 'inspect', 'flat_map', 'flatten', 'map_while', 'fuse')
+ADAPT = ('cycle', 'scan', 'map', 'filter', 'filter_map', 'enumerate', 'rev', 'zip', 'chain', 'skip', 'take', 'cloned', 'copied', 'step_by', 'take_while', 'skip_while', 'by_ref', 'peekable', 'inspect', 'flat_map', 'flatten', 'map_while', 'fuse')
 CONSUME = ('next', 'next_back', 'collect', 'count', 'last', 'nth', 'fold', 'all', 'any', 'find', 'find_map', 'position', 'sum', 'product', 'min', 'max', 'for_each', 'len', 'size_hint', 'rposition', 'unzip', 'partition',
            'min_by_key', 'max_by_key', 'try_fold', 'reduce', 'eq', 'rfind', 'nth_back', 'is_empty')
 @model_re(r'^<.* as (Iterator|DoubleEndedIterator|ExactSizeIterator)>::(\w+)$|^core::iter::(Iterator|DoubleEndedIterator|ExactSizeIterator)::(\w+)$')
@@ -356,6 +371,26 @@ def adapt(M, fn, it, a, c):
                 if it.nxt() is STOP: return STOP
             return it.nxt()
         return mk(nxt, None, None)
+    if fn == 'cycle':
+        st = {'seen': [], 'i': None}
+        def nxt():
+            if st['i'] is None:
+                x = it.nxt()
+                if x is not STOP: st['seen'].append(x); return generic_clone(M, x)
+                if not st['seen']: return STOP
+                st['i'] = 0
+            x = st['seen'][st['i'] % len(st['seen'])]; st['i'] += 1; return generic_clone(M, x)
+        return mk(nxt)
+    if fn == 'scan':
+        st = {'acc': a[1], 'done': False}; f = a[2]
+        def nxt():
+            if st['done']: return STOP
+            x = it.nxt()
+            if x is STOP: return STOP
+            cell = [st['acc']]; r = callf(M, f, [Ref(cell, 0), x]); st['acc'] = cell[0]
+            if r.variant == 0: st['done'] = True; return STOP
+            return r.fields[0]
+        return mk(nxt)
     if fn == 'peekable':
         st = {'buf': []}
         def nxt(): return st['buf'].pop(0) if st['buf'] else it.nxt()
@@ -677,7 +712,7 @@ def _(M, a, c):
         for e in b[lo:hi]:
             if isinstance(e, Int): r = bor(r, M.binop('Eq', e, x))
             elif isinstance(e, Native) and e.kind == 'String': r = bor(r, ms.m_str_eq(M, [e, x], c))
-            else: raise Unsupported("contains on " + repr(type(e)))
+            else: r = bor(r, generic_eq(M, e, x))
         return r
     if fn == 'split_off':
         k = concretize(M, a[1], n)
@@ -984,10 +1019,10 @@ def _(M, a, c):
     g = Native('RefGuard', cell=cell, mut=mut)
     return ok(g) if fn.startswith('try_') else g
 _old_drop = Machine.do_drop
-def _do_drop(self, v):
+def _do_drop(self, v, depth=0):
     if isinstance(v, Native) and v.kind == 'RefGuard':
         c = v.d['cell']; c.d['n'] = 0 if v.d['mut'] else max(0, c.d['n'] - 1); return
-    return _old_drop(self, v)
+    return _old_drop(self, v, depth)
 Machine.do_drop = _do_drop
 
 # ------------------------------------------------------------------ ordering
@@ -1590,6 +1625,170 @@ def _(M, a, c):
     v = M.do_call('<%s as Ord>::cmp' % ty, [Ref([x], 0), Ref([y], 0)], None).variant
     if fn == 'max': return x if v == 2 else y
     return x if v <= 1 else y
+@model_re(r'^core::str::<impl str>::(rsplit|splitn|rsplitn|rsplit_once)$')
+def _(M, a, c):
+    fn = norm_name(c).split('::')[-1]; s = _bytes(a[0]); items = s.items(); n = len(items)
+    lim = None
+    if fn in ('splitn', 'rsplitn'):
+        if a[1].sym(): raise Unsupported("splitn with a symbolic count")
+        lim = a[1].v; pat = a[2]
+    else: pat = a[1]
+    while isinstance(pat, Ref): pat = V(pat)
+    pb = encode_char(M, pat) if isinstance(pat, Int) else list(_bytes(pat).items()); m = len(pb)
+    if m == 0: raise Unsupported("split with an empty pattern")
+    def eq_at(i):
+        r = True
+        for x, y in zip(items[i:i + m], pb): r = band(r, byte_eq(M, x, y))
+        return r
+    def sl(p, q): return Slice(s.b, s.lo + p, s.lo + q, True)
+    if fn in ('splitn',):
+        parts = []; start = 0; i = 0
+        while i + m <= n and (lim is None or len(parts) < lim - 1):
+            if M.branch(eq_at(i)): parts.append(sl(start, i)); i += m; start = i
+            else: i += 1
+        if lim != 0: parts.append(sl(start, n))
+        return from_list(parts)
+    # from the back
+    parts = []; end = n; i = n - m
+    while i >= 0 and (lim is None or len(parts) < lim - 1):
+        if M.branch(eq_at(i)):
+            parts.append(sl(i + m, end)); end = i; i -= m
+            if fn == 'rsplit_once': return some(Agg('tuple', 0, [sl(0, end), parts[0]]))
+        else: i -= 1
+    if fn == 'rsplit_once': return NONE()
+    if lim != 0: parts.append(sl(0, end))
+    return from_list(parts)
+@model_re(r'^core::num::<impl ([iu])(8|16|32|64|128|size)>::(from_str_radix|leading_zeros|trailing_zeros|count_ones|count_zeros|checked_pow|wrapping_pow|is_power_of_two|swap_bytes)$')
+def _(M, a, c):
+    m = re.match(r'^core::num::<impl ([iu])(\w+)>::(\w+)$', norm_name(c)); sg = m.group(1) == 'i'; w = 64 if m.group(2) == 'size' else int(m.group(2)); fn = m.group(3)
+    if fn == 'from_str_radix':
+        bs = _bytes(a[0]).items()
+        if any(isinstance(b, Dec) or b.sym() for b in bs) or a[1].sym(): raise Unsupported("from_str_radix on symbolic text")
+        txt = bytes(b.v for b in bs).decode('utf-8', 'replace'); rad = a[1].v
+        try:
+            if not txt or txt in '+-' or any(ch == '_' or ch.isspace() for ch in txt): raise ValueError
+            v = int(txt, rad)
+        except ValueError: return err(Agg('ParseIntError', 0, [Agg('IntErrorKind', 0 if not txt else 1, [])]))
+        lo = -(1 << (w - 1)) if sg else 0; hi = (1 << (w - 1)) - 1 if sg else (1 << w) - 1
+        if txt.startswith('-') and not sg: return err(Agg('ParseIntError', 0, [Agg('IntErrorKind', 1, [])]))
+        if v > hi: return err(Agg('ParseIntError', 0, [Agg('IntErrorKind', 2, [])]))
+        if v < lo: return err(Agg('ParseIntError', 0, [Agg('IntErrorKind', 3, [])]))
+        return ok(Int(w, sg, v))
+    x = deref_all(a[0])
+    if fn in ('checked_pow', 'wrapping_pow'):
+        e = deref_all(a[1])
+        if x.sym() or e.sym(): raise Unsupported("pow on symbolic operands")
+        v = x.v ** e.v; lo = -(1 << (w - 1)) if sg else 0; hi = (1 << (w - 1)) - 1 if sg else (1 << w) - 1
+        if fn == 'wrapping_pow': return Int(w, sg, v)
+        return some(Int(w, sg, v)) if lo <= v <= hi else NONE()
+    if x.sym(): raise Unsupported("bit counting on a symbolic integer")
+    u = x.v & ((1 << w) - 1); bits = bin(u)[2:].zfill(w)
+    if fn == 'leading_zeros': return Int(32, False, len(bits) - len(bits.lstrip('0')))
+    if fn == 'trailing_zeros': return Int(32, False, w if u == 0 else len(bits) - len(bits.rstrip('0')))
+    if fn == 'count_ones': return Int(32, False, bits.count('1'))
+    if fn == 'count_zeros': return Int(32, False, bits.count('0'))
+    if fn == 'is_power_of_two': return bits.count('1') == 1
+    raise Unsupported("int method " + fn)
+@model_re(r'^char::methods::<impl char>::(to_uppercase|to_lowercase)$')
+def _(M, a, c):
+    fn = norm_name(c).split('::')[-1]; x = a[0].load() if isinstance(a[0], Ref) else a[0]
+    if x.sym(): raise Unsupported("case mapping of a symbolic character")
+    ch = chr(x.v); r = ch.upper() if fn == 'to_uppercase' else ch.lower()
+    return from_list([Int(32, False, ord(y)) for y in r])
+@model_re(r'^(std::iter::|core::iter::)?(from_fn|successors|repeat|repeat_with)$')
+def _(M, a, c):
+    fn = norm_name(c).split('::')[-1]
+    if fn == 'from_fn':
+        f = a[0]
+        def nxt():
+            r = callf(M, f, []); return STOP if r.variant == 0 else r.fields[0]
+        return mk(nxt)
+    if fn == 'successors':
+        st = {'cur': a[0]}; f = a[1]
+        def nxt():
+            cur = st['cur']
+            if cur.variant == 0: return STOP
+            v = cur.fields[0]; st['cur'] = callf(M, f, [Ref([v], 0)]); return v
+        return mk(nxt)
+    if fn == 'repeat':
+        v = a[0]; return mk(lambda: generic_clone(M, v))
+    f = a[0]; return mk(lambda: callf(M, f, []))
+@model_re(r'^core::slice::<impl \[.*\]>::(split|chunks_exact|rchunks|splitn)$')
+def _(M, a, c):
+    fn = norm_name(c).split('::')[-1]; b, lo, hi = _list_of(a[0])
+    if fn == 'chunks_exact':
+        if a[1].sym(): raise Unsupported("chunks_exact with a symbolic size")
+        k = a[1].v; n = hi - lo
+        return from_list([Slice(b, lo + i, lo + i + k) for i in range(0, n - n % k, k)])
+    if fn == 'split':
+        parts = []; start = lo
+        for i in range(lo, hi):
+            if M.branch(callf(M, a[1], [Ref(b, i)])): parts.append(Slice(b, start, i)); start = i + 1
+        parts.append(Slice(b, start, hi))
+        return from_list(parts)
+    raise Unsupported("slice::" + fn)
+@model_re(r'^BTreeMap::(<.*>::)?(range|first_key_value|last_key_value|pop_first|pop_last|values_mut|iter_mut|retain)$|^HashMap::(<.*>::)?(values_mut|iter_mut|retain)$|^BTreeSet::(<.*>::)?(first|last|intersection|union|difference|range|is_subset|pop_first|pop_last)$|^HashSet::(<.*>::)?(intersection|union|difference|is_subset)$')
+def _(M, a, c):
+    nm = norm_name(c); fn = nm.split('::')[-1]; m = V(a[0]); isset = nm.startswith(('BTreeSet', 'HashSet')); hashed = nm.startswith(('HashMap', 'HashSet'))
+    es = sorted_items(m.d['m'])
+    if hashed: es = demonic_perm(M, es)
+    if fn in ('first_key_value', 'last_key_value', 'first', 'last'):
+        if not es: return NONE()
+        e = es[0] if fn.startswith('first') else es[-1]
+        return some(Ref(e, 0)) if isset else some(Agg('tuple', 0, [Ref(e, 0), Ref(e, 1)]))
+    if fn in ('pop_first', 'pop_last'):
+        if not es: return NONE()
+        e = es[0] if fn == 'pop_first' else es[-1]; del m.d['m'][skey(e[0])]
+        return some(e[0]) if isset else some(Agg('tuple', 0, [e[0], e[1]]))
+    if fn == 'values_mut': return from_list([Ref(e, 1) for e in es])
+    if fn == 'iter_mut': return from_list([Agg('tuple', 0, [Ref(e, 0), Ref(e, 1)]) for e in es])
+    if fn == 'retain':
+        for e in es:
+            keep = M.branch(callf(M, a[1], [Ref(e, 0)] if isset else [Ref(e, 0), Ref(e, 1)]))
+            if not keep: del m.d['m'][skey(e[0])]
+        return UNIT
+    if fn == 'range':
+        r = a[1]; ty = r.ty if isinstance(r, Agg) else ''
+        def inr(k):
+            k = deref_all(k); f = r.fields
+            if ty == 'Range': return M.branch(band(M.binop('Le', f[0], k), M.binop('Lt', k, f[1])))
+            if ty == 'RangeInclusive': return M.branch(band(M.binop('Le', f[0], k), M.binop('Le', k, f[1])))
+            if ty == 'RangeFrom': return M.branch(M.binop('Le', f[0], k))
+            if ty == 'RangeTo': return M.branch(M.binop('Lt', k, f[0]))
+            if ty == 'RangeFull' or not ty: return True
+            raise Unsupported("map range over " + ty)
+        sel = [e for e in es if inr(e[0])]
+        return from_list([Ref(e, 0) for e in sel] if isset else [Agg('tuple', 0, [Ref(e, 0), Ref(e, 1)]) for e in sel])
+    other = V(a[1]).d['m']
+    if fn == 'intersection': return from_list([Ref(e, 0) for e in es if skey(e[0]) in other])
+    if fn == 'difference': return from_list([Ref(e, 0) for e in es if skey(e[0]) not in other])
+    if fn == 'union': return from_list([Ref(e, 0) for e in es] + [Ref(e, 0) for e in (sorted_items(other) if not hashed else demonic_perm(M, sorted_items(other))) if skey(e[0]) not in m.d['m']])
+    if fn == 'is_subset': return all(skey(e[0]) in other for e in es)
+    raise Unsupported("map / set method " + fn)
+@model_re(r'^(HashMap|BTreeMap|HashSet|BTreeSet)::(<.*>::)?(len|is_empty|clear)$')
+def _(M, a, c):
+    fn = norm_name(c).split('::')[-1]; m = V(a[0])
+    if fn == 'len': return usize(len(m.d['m']))
+    if fn == 'is_empty': return len(m.d['m']) == 0
+    m.d['m'].clear(); return UNIT
+@model_re(r'^<[iu](8|16|32|64|128|size) as (Add|Sub|Mul|Div|Rem)Assign<&?[iu](8|16|32|64|128|size)>>::(add|sub|mul|div|rem)_assign$')
+def _(M, a, c):
+    op = norm_name(c).split('::')[-1].split('_')[0]; cell = a[0]; x = cell.load(); y = deref_all(a[1])
+    r = M.do_call('core::num::<impl %s%d>::checked_%s' % ('i' if x.s else 'u', x.w, op), [x, y], None)
+    if r.variant == 0: raise Panic("attempt to %s with overflow (or a zero divisor)" % op)
+    cell.store(r.fields[0]); return UNIT
+@model_re(r'^<[A-Z]\\w? as (PartialOrd|Ord|PartialEq)(<.*>)?>::(eq|ne|lt|le|gt|ge|cmp|partial_cmp|max|min)$')
+def _(M, a, c):
+    # comparison through a bare type parameter: decided on the run-time values
+    fn = norm_name(c).split('::')[-1]
+    if fn in ('eq', 'ne'):
+        r = generic_eq(M, a[0], a[1]); return bnot(r) if fn == 'ne' else r
+    v = generic_cmp(M, deref_all(a[0]), deref_all(a[1]))
+    if fn in ('lt', 'le', 'gt', 'ge'): return {'lt': v == 0, 'le': v <= 1, 'gt': v == 2, 'ge': v >= 1}[fn]
+    if fn == 'max': return a[0] if v == 2 else a[1]
+    if fn == 'min': return a[0] if v <= 1 else a[1]
+    o = Agg('Ordering', v, [])
+    return some(o) if fn == 'partial_cmp' else o
 # ---- map entry API
 @model_re(r'^(BTreeMap|HashMap)::entry$')
 def _(M, a, c):
